@@ -278,6 +278,12 @@ func runEngineSelfTests() {
 			expect("delete on a map read from a Labels field "+name, hit, want)
 		}
 	}
+	// one-sided positional comparison
+	for name, want := range map[string]bool{"GoodLexLess": false, "GoodLexLessNeq": false, "BadLexLess": true} {
+		if f := fn(name); f != nil {
+			expect("one-sided positional comparison "+name, len(oneSidedPositional(f)) > 0, want)
+		}
+	}
 	// listed once: a second append reachable within the same iteration
 	for name, want := range map[string]bool{"GoodListOnce": false, "BadListTwice": true} {
 		if f := fn(name); f != nil {
